@@ -7,7 +7,7 @@
    copy primitives are rewritten into total list functions by lemmas whose side conditions are length facts decided by
    lia), case analysis on every remaining condition, equality up to arithmetic under the same constructors.  No step depends
    on the names of locals, the order of the loop's state tuple, the polarity of a condition or on helper functions. *)
-From Coq Require Import List ZArith Lia Bool Arith.
+From Coq Require Import List ZArith Lia Bool Arith ZifyBool.
 From V Require Import Lib.Enc Gen.Cryptz Model.Aes Model.Crypt Lib.GoSem Lib.GoSemRec Lib.GoSemStd Proofs.GoSemFacts
   Gen.CryptCode Run.C09Code.
 Import ListNotations.
@@ -109,7 +109,106 @@ Proof.
   - apply m_copy_bad. lia.
 Qed.
 
-(* STATUS: the lemmas above are what the equality proof of g_fillCred needs (m_copy / m_slice as total functions, the
-   scratch-buffer lemma fill_buf); the theorem code_fillCred itself (symbolic evaluation of the three rounds against
-   Model.Crypt.fill_loop) is NOT in this file yet: the evaluation script did not terminate in the time available.
-   See notes/C09.md, section "CryptCode". *)
+Lemma zlen_nonneg l : 0 <= zlen l. Proof. unfold zlen. lia. Qed.
+Lemma m_make_ok n : 0 <= n -> m_make n = Ret (repeat 0 (Z.to_nat n)).
+Proof. intros H. unfold m_make. destruct (Z.ltb_spec n 0); [lia|reflexivity]. Qed.
+Lemma zlen_repeat (x : Z) n : 0 <= n -> zlen (repeat x (Z.to_nat n)) = n.
+Proof. intros H. unfold zlen. rewrite repeat_length. lia. Qed.
+
+(* closed integer terms *)
+Ltac is_pc p := lazymatch p with xH => idtac | xO ?q => is_pc q | xI ?q => is_pc q end.
+Ltac is_zc t := lazymatch t with
+  | Z0 => idtac | Zpos ?p => is_pc p | Zneg ?p => is_pc p
+  | ?a + ?b => is_zc a; is_zc b | ?a - ?b => is_zc a; is_zc b | ?a * ?b => is_zc a; is_zc b end.
+Ltac fold1 t := let v := eval vm_compute in t in change t with v.
+Ltac fold_consts := repeat match goal with
+  | |- context [?a + ?b] => is_zc a; is_zc b; fold1 (a + b)
+  | |- context [?a * ?b] => is_zc a; is_zc b; fold1 (a * b)
+  | |- context [?a - ?b] => is_zc a; is_zc b; fold1 (a - b)
+  | |- context [?a <? ?b] => is_zc a; is_zc b; fold1 (a <? b)
+  | |- context [?a <=? ?b] => is_zc a; is_zc b; fold1 (a <=? b)
+  | |- context [?a =? ?b] => is_zc a; is_zc b; fold1 (a =? b)
+  | |- context [?a >? ?b] => is_zc a; is_zc b; fold1 (a >? b)
+  | |- context [?a >=? ?b] => is_zc a; is_zc b; fold1 (a >=? b)
+  end.
+
+
+Definition put (d : list Z) (k : nat) (src : list Z) : list Z := firstn k d ++ gocopy (skipn k d) src.
+Lemma zlen_put d k src : Z.of_nat k <= zlen d -> zlen (put d k src) = zlen d.
+Proof. intros H. unfold put, zlen in *. rewrite app_length, gocopy_length, firstn_length, skipn_length. lia. Qed.
+Lemma cpy_zlen d a b src : 0 <= a -> a <= b -> b <= zlen d -> zlen (cpy d a b src) = zlen d.
+Proof. intros. unfold zlen. rewrite cpy_length by assumption. reflexivity. Qed.
+Lemma zlen_repeat_nat (x : Z) n : zlen (repeat x n) = Z.of_nat n.
+Proof. unfold zlen. rewrite repeat_length. reflexivity. Qed.
+Lemma m_copy_put d a src : 0 <= a ->
+  m_copy d a (zlen d) src = if a <=? zlen d then Ret (put d (Z.to_nat a) src, Z.of_nat (Nat.min (length d - Z.to_nat a) (length src))) else GoSem.Panic.
+Proof. apply m_copy_from. Qed.
+Lemma fill_buf' (buf prev secret salt : list Z) (n hi s2 : Z) :
+  hi = n + zlen secret + zlen salt -> s2 = n + zlen secret -> 0 <= n -> n <= zlen prev -> hi <= zlen buf ->
+  firstn (Z.to_nat hi) (cpy (cpy (cpy buf 0 hi prev) n hi secret) s2 hi salt) = firstn (Z.to_nat n) prev ++ secret ++ salt.
+Proof. intros -> ->. apply fill_buf. Qed.
+
+Section S.
+Variable E D : bytes -> bytes -> bytes.
+Variable seal : bytes -> bytes -> bytes -> bytes -> bytes.
+Variable open : bytes -> bytes -> bytes -> bytes -> option bytes.
+Variable md5 : bytes -> bytes.
+Variable osalt : option bytes.
+Hypothesis md5_len : forall m, length (md5 m) = 16%nat.
+Lemma md5_stdc x : md5_Sum (stdc E D seal open md5 osalt) x = Ret (md5 x).
+Proof. reflexivity. Qed.
+Lemma md5_zlen m : zlen (md5 m) = 16. Proof. unfold zlen. rewrite md5_len. reflexivity. Qed.
+
+Ltac lens := repeat first [rewrite zlen_repeat by lens | rewrite zlen_repeat_nat | rewrite cpy_zlen by lens | rewrite zlen_put by lens | rewrite md5_zlen]; lia.
+Ltac dec_if := match goal with |- context [if ?c then _ else _] =>
+  first [ replace c with false by (symmetry; lens) | replace c with true by (symmetry; lens)
+        | let Hc := fresh "Hc" in destruct c eqn:Hc ] end.
+Ltac abs_cpy := repeat match goal with |- context [cpy ?d ?a ?b ?s] =>
+  let L := fresh "buf" in let HL := fresh "HL" in
+  set (L := cpy d a b s); assert (HL : zlen L = zlen d) by (apply cpy_zlen; lens);
+  repeat first [rewrite zlen_repeat in HL by lens | rewrite cpy_zlen in HL by lens] end.
+Ltac ev1 := first
+ [ match goal with |- context [Ret (md5 ?x)] => let p := fresh "p" in let Hp := fresh "Hp" in
+     set (p := md5 x); assert (Hp : zlen p = 16) by apply md5_zlen end
+ | abs_cpy; rewrite while_step
+ | progress cbn [bind negb]
+ | progress cbv beta iota zeta
+ | progress fold_consts
+ | rewrite m_make_ok by lens
+ | rewrite m_slice_all
+ | rewrite fill_buf' by lens
+ | rewrite m_slice_pre by lens
+ | rewrite m_copy_put by lens
+ | rewrite m_copy_cpy by lens
+ | rewrite md5_stdc
+ | dec_if ].
+
+Lemma fill_loop_S r i prev secret salt cred : fill_loop md5 (S r) i prev secret salt cred =
+  if (length cred <? i * 16)%nat then Aes.Panic else
+  fill_loop md5 r (S i) (md5 (firstn (if (i =? 0)%nat then 0 else 16) prev ++ secret ++ salt)) secret salt
+    (put cred (i * 16) (md5 (firstn (if (i =? 0)%nat then 0 else 16) prev ++ secret ++ salt))).
+Proof. reflexivity. Qed.
+Ltac is_nc n := lazymatch n with O => idtac | S ?m => is_nc m end.
+Ltac fold_nat := repeat match goal with
+  | |- context [Z.to_nat ?a] => is_zc a; fold1 (Z.to_nat a)
+  | |- context [(?a * ?b)%nat] => is_nc a; is_nc b; fold1 (a * b)%nat
+  | |- context [(?a =? ?b)%nat] => is_nc a; is_nc b; fold1 (a =? b)%nat
+  end.
+Ltac dec_fin := match goal with |- context [if ?c then _ else _] =>
+  first [ replace c with false by (symmetry; lia) | replace c with true by (symmetry; lia) ] end.
+Ltac fin :=
+  repeat match goal with H : _ = true |- _ => revert H | H : _ = false |- _ => revert H end;
+  repeat match goal with H : zlen _ = _ |- _ => clear H end;
+  repeat match goal with x := _ |- _ => first [clear x | subst x] end;
+  rewrite !fill_loop_S; unfold zeros; fold_nat; cbv beta iota zeta; unfold zlen; intros;
+  repeat dec_fin; cbn [fill_loop cred_res]; reflexivity.
+
+Theorem code_fillCred : forall fuel cred salt secret, (4 <= fuel)%nat ->
+  g_fillCred fuel (stdc E D seal open md5 osalt) cred salt secret = cred_res (fill_loop md5 3 0 (zeros 16) secret salt cred).
+Proof.
+  intros fuel cred salt secret Hf. do 4 (destruct fuel as [|fuel]; [lia|]). clear Hf.
+  unfold g_fillCred. cbv beta iota zeta.
+  pose proof (zlen_nonneg secret) as Hs. pose proof (zlen_nonneg salt) as Ht. pose proof (zlen_nonneg cred) as Hc.
+  repeat ev1. all: fin.
+Qed.
+End S.
